@@ -92,6 +92,22 @@ Proof.
   exists b. split; [assumption|]. apply P. now apply lookup_In.
 Qed.
 
+(* ---- completeness: an honest step with well-formed environment data is never refused ---------- *)
+
+Lemma all_ok_complete : forall {A B} (f : A -> res B) l, (forall x, In x l -> exists b, f x = Ok b) -> exists r, all_ok f l = Some r.
+Proof.
+  induction l as [|x l IH]; intro H; cbn; [eauto|].
+  destruct (H x (or_introl eq_refl)) as [b Hb]. rewrite Hb.
+  destruct IH as [r Hr]; [intros; apply H; now right|]. rewrite Hr. eauto.
+Qed.
+
+Lemma all_some_complete : forall {A B} (f : A -> option B) l, (forall x, In x l -> exists b, f x = Some b) -> exists r, all_some f l = Some r.
+Proof.
+  induction l as [|x l IH]; intro H; cbn; [eauto|].
+  destruct (H x (or_introl eq_refl)) as [b Hb]. rewrite Hb.
+  destruct IH as [r Hr]; [intros; apply H; now right|]. rewrite Hr. eauto.
+Qed.
+
 Section RedistProofs.
 Context {F : Type} (K : fops F) (HK : flaws K).
 
@@ -689,7 +705,8 @@ Theorem redist_run_good : forall (w : WORLD) ns a w' s,
 Proof.
   intros w ns a w' s G H. unfold redist_run in H.
   match type of H with (if negb ?c then _ else _) = _ => destruct c eqn:EC; cbn [negb] in H; [|discriminate] end.
-  do 8 (apply andb_true_iff in EC; destruct EC as [EC ?]).
+  unfold precheck in EC.
+  do 9 (apply andb_true_iff in EC; destruct EC as [EC ?]).
   rename EC into Wns.
   match goal with X : wf_sharing_b (sa_zs a) = true |- _ => rename X into Wzs end.
   match goal with X : nodup_b (sa_Q a) = true |- _ => apply nodup_b_NoDup in X; rename X into NDQ end.
@@ -939,6 +956,264 @@ Proof.
   intros m r t Hm x. split; intro H.
   - rewrite <- H. field. assumption.
   - rewrite H. field. assumption.
+Qed.
+
+Lemma veqb_refl : forall a : VEC, veqb K a a = true.
+Proof. intro a. now apply veqb_eq. Qed.
+
+Lemma rows_eqb_refl : forall a : list VEC, rows_eqb K a a = true.
+Proof. induction a as [|x a IH]; cbn; [reflexivity|]. now rewrite veqb_refl, IH. Qed.
+
+Lemma tab_eqb_refl : forall a : list (N * list VEC), tab_eqb K a a = true.
+Proof. induction a as [|[i x] a IH]; cbn; [reflexivity|]. now rewrite N.eqb_refl, rows_eqb_refl, IH. Qed.
+
+Lemma sharing_eqb_refl : forall sh : SH, sharing_eqb K sh sh = true.
+Proof. intro sh. unfold sharing_eqb. now rewrite Nat.eqb_refl, tab_eqb_refl. Qed.
+
+Lemma hjky_cols_complete : forall (zs : SH) rnds, (0 < sh_dim zs)%nat ->
+  (forall e, In e rnds -> length (snd e) = sh_dim zs) -> exists zc, hjky_cols K zs rnds = Some zc.
+Proof.
+  induction rnds as [|[j rnd] t IH]; intros Hd H; cbn; [eauto|].
+  unfold hjky_round1, deal_col. pose proof (H (j, rnd) (or_introl eq_refl)) as Hl. simpl in Hl.
+  rewrite Hl, Nat.eqb_refl. apply Nat.ltb_lt in Hd as Hd'. rewrite Hd'. cbn [andb].
+  destruct IH as [zc Hz]; [assumption|intros; apply H; now right|]. rewrite Hz. eauto.
+Qed.
+
+Lemma hjky_accumulate_complete : forall (zs : SH) i inbox s v,
+  length v = sh_dim zs ->
+  (forall m : zmsg, In m inbox -> verify K zs i (snd (snd m)) (fst (snd m)) = true /\ hd0 K (fst (snd m)) = 0) ->
+  exists r, hjky_accumulate K zs i s v inbox = Ok r.
+Proof.
+  induction inbox as [|[j [vv sh]] rest IH]; intros s v Lv H; cbn; [eauto|].
+  destruct (H (j, (vv, sh)) (or_introl eq_refl)) as [V Z]. cbn [fst snd] in V, Z.
+  rewrite V. cbn [negb]. rewrite Z. rewrite (proj2 (feqb_eq 0 0) eq_refl). cbn [negb].
+  destruct (verify_inv _ _ _ _ V) as [_ [Lvv _]]. rewrite Lv, Lvv, Nat.eqb_refl. cbn [negb].
+  apply IH; [apply vadd_length_eq; assumption|intros; apply H; now right].
+Qed.
+
+Lemma hjky_party_complete : forall (zs : SH) (zc : zcols) i,
+  In i (holders zs) -> In i (map fst zc) ->
+  (forall e, In e zc -> length (snd e) = sh_dim zs /\ hd0 K (snd e) = 0) ->
+  exists r, hjky_party K zs zc i = Ok r.
+Proof.
+  intros zs zc i Hi Hin P. unfold hjky_party. destruct (lookup_map_fst zc i Hin) as [c L]. rewrite L.
+  unfold hjky_round2. apply hjky_accumulate_complete.
+  - apply (P (i, c)). now apply lookup_In.
+  - intros m Hm. unfold hjky_inbox in Hm. apply in_map_iff in Hm. destruct Hm as [jc [E Hjc]]. subst m. cbn [fst snd].
+    apply filter_In in Hjc. destruct Hjc as [Hjc _]. destruct (P jc Hjc) as [L1 L2]. split; [|assumption].
+    now apply verify_share_of.
+Qed.
+
+
+Lemma r3_accumulate_complete : forall n (inbox : list (@r2msg F)) s v,
+  length v = n -> (forall m, In m inbox -> length (b_nextvv (m_b m)) = n) ->
+  exists s' v', r3_accumulate K (Some (s, v)) inbox = Ok (Some (s', v')).
+Proof.
+  induction inbox as [|m rest IH]; intros s v Lv H; cbn; [eauto|].
+  rewrite Lv, (H m (or_introl eq_refl)), Nat.eqb_refl.
+  apply IH; [apply vadd_length_eq; [assumption|apply H; now left]|intros; apply H; now right].
+Qed.
+
+Lemma r3_pieces_complete : forall (ns : SH) i inbox,
+  (forall m, In m inbox -> verify K ns i (m_piece m) (b_nextvv (m_b m)) = true) -> r3_pieces K ns i inbox = Ok tt.
+Proof.
+  induction inbox as [|m rest IH]; intro H; cbn; [reflexivity|].
+  rewrite (H m (or_introl eq_refl)). apply IH. intros; apply H; now right.
+Qed.
+
+Lemma r3_oldpk_complete : forall pk (inbox : list (@r2msg F)), (forall m, In m inbox -> hd0 K (b_prevvv (m_b m)) = pk) -> r3_oldpk K pk inbox = true.
+Proof.
+  induction inbox as [|m rest IH]; intro H; cbn; [reflexivity|].
+  rewrite (proj2 (feqb_eq _ _) (H m (or_introl eq_refl))). apply IH. intros; apply H; now right.
+Qed.
+
+Lemma r3_consistency_complete : forall (tps : SH) tvv tzvv (zs : SH) lam lamz inbox,
+  (forall m, In m inbox ->
+     b_prev (m_b m) = tps /\ b_prevvv (m_b m) = tvv /\ b_zerovv (m_b m) = tzvv /\
+     hd0 K (b_nextvv (m_b m)) = additive K lam (m_from m) (share_of K tps tvv (m_from m)) +
+                                additive K lamz (m_from m) (share_of K zs tzvv (m_from m))) ->
+  r3_consistency K (tps, tvv, tzvv) zs lam lamz inbox = Ok tt.
+Proof.
+  induction inbox as [|m rest IH]; intro H; cbn; [reflexivity|].
+  destruct (H m (or_introl eq_refl)) as [E1 [E2 [E3 E4]]]. rewrite E1, E2, E3.
+  rewrite sharing_eqb_refl, !veqb_refl. cbn [andb negb].
+  rewrite (proj2 (feqb_eq _ _) E4). apply IH. intros; apply H; now right.
+Qed.
+
+Lemma find_bcast_complete : forall a (inbox : list (@r2msg F)), (exists m, In m inbox /\ m_from m = a) ->
+  exists m, In m inbox /\ m_from m = a /\ find_bcast a inbox = Some (m_b m).
+Proof.
+  induction inbox as [|m rest IH]; intros [x [Hx E]]; [contradiction|]. cbn [find_bcast].
+  destruct (N.eqb (m_from m) a) eqn:EQ.
+  - exists m. apply N.eqb_eq in EQ. repeat split; auto. now left.
+  - destruct Hx as [Hx|Hx]; [subst x; rewrite E, N.eqb_refl in EQ; discriminate|].
+    destruct IH as [y [Hy [Ey Fy]]]; [eauto|]. exists y. repeat split; auto. now right.
+Qed.
+
+(* the sum of the columns dealt in an honest step has first entry s *)
+Lemma sum_cols_secret : forall (w : WORLD) s (zs ns : SH) Q lam lamz (cols : list (N * (F * VEC))) (zsh : N -> list F) Z,
+  good w s -> wf_sharing_b zs = true -> wf_sharing_b ns = true ->
+  coefs_checked K solve (w_sh w) Q = Some lam -> coefs_checked K solve zs Q = Some lamz ->
+  map fst cols = Q ->
+  (forall e, In e cols -> length (snd (snd e)) = sh_dim ns /\
+      hd0 K (snd (snd e)) = additive K lam (fst e) (share_in w (fst e)) + additive K lamz (fst e) (zsh (fst e))) ->
+  (forall j, In j Q -> zsh j = share_of K zs Z j) -> hd0 K Z = 0 ->
+  hd0 K (vsum K (sh_dim ns) (map (fun e : N * (F * VEC) => snd (snd e)) cols)) = s.
+Proof.
+  intros w s zs ns Q lam lamz cols zsh Z G Wzs Wns EL ELZ MC RC HZ Z0.
+  rewrite hd0_vsum; [|now apply wf_dim_pos|].
+  2:{ intros v Hv. apply in_map_iff in Hv. destruct Hv as [e [E He]]. subst. now apply RC. }
+  rewrite map_map.
+  rewrite (fsum_map_ext _ (fun e : N * (F * VEC) => additive K lam (fst e) (share_in w (fst e)) + additive K lamz (fst e) (zsh (fst e)))).
+  2:{ intros e He. now apply RC. }
+  rewrite fsum_map_add.
+  rewrite <- (map_map fst (fun j => additive K lam j (share_in w j))).
+  rewrite <- (map_map fst (fun j => additive K lamz j (zsh j))).
+  rewrite MC.
+  change (fsum K (map (fun j => additive K lam j (share_in w j)) Q)) with (recon K Q lam (share_in w)).
+  change (fsum K (map (fun j => additive K lamz j (zsh j)) Q)) with (recon K Q lamz zsh).
+  rewrite (good_recon w s Q lam G); [|now apply coefs_checked_ok].
+  rewrite (recon_ext Q lamz _ (share_of K zs Z)) by exact HZ.
+  rewrite recon_correct; [|assumption|now apply coefs_checked_ok].
+  rewrite Z0. ring.
+Qed.
+
+Theorem redist_run_complete : forall (w : WORLD) (ns : SH) (a : step_args) s lam lamz,
+  good w s -> precheck w ns a = true ->
+  coefs_checked K solve (w_sh w) (sa_Q a) = Some lam -> coefs_checked K solve (sa_zs a) (sa_Q a) = Some lamz ->
+  (forall e, In e (sa_rnd1 a) -> length (snd e) = sh_dim (sa_zs a)) ->
+  (forall e, In e (sa_rnd2 a) -> length (snd e) = sh_dim ns) ->
+  exists w', redist_run K solve w ns a = Some w'.
+Proof.
+  intros w ns a s lam lamz G PC EL ELZ L1 L2. unfold redist_run. rewrite PC. cbn [negb].
+  unfold precheck in PC. do 9 (apply andb_true_iff in PC; destruct PC as [PC ?]).
+  rename PC into Wns.
+  match goal with X : wf_sharing_b (sa_zs a) = true |- _ => rename X into Wzs end.
+  match goal with X : nodup_b (sa_Q a) = true |- _ => apply nodup_b_NoDup in X; rename X into NDQ end.
+  match goal with X : Nat.leb 2 (length (sa_Q a)) = true |- _ => apply Nat.leb_le in X; rename X into LQ end.
+  match goal with X : forallb _ (sa_Q a) = true |- _ => rename X into QH end.
+  match goal with X : list_N_eqb (map fst (sa_rnd1 a)) (sa_Q a) = true |- _ => apply list_N_eqb_eq in X; rename X into R1 end.
+  match goal with X : list_N_eqb (map fst (sa_rnd2 a)) (sa_Q a) = true |- _ => apply list_N_eqb_eq in X; rename X into R2 end.
+  match goal with X : Nat.leb 1 (length (holders ns)) = true |- _ => apply Nat.leb_le in X; rename X into LH end.
+  match goal with X : (N.eqb (sa_anchor a) 0 || mem (sa_anchor a) (sa_Q a)) = true |- _ => rename X into AN end.
+  set (Q := sa_Q a) in *. set (zs := sa_zs a) in *.
+  rewrite EL.
+  pose proof (coefs_checked_ok _ _ _ EL) as RL. pose proof (coefs_checked_ok _ _ _ ELZ) as RLZ.
+  destruct G as [GW [GL [G0 [Gpk Gs]]]].
+  assert (G : good w s) by (unfold good; repeat split; assumption).
+  (* the zero sharing *)
+  destruct (hjky_cols_complete zs (sa_rnd1 a) (wf_dim_pos _ Wzs) L1) as [zc EZ]. rewrite EZ.
+  destruct (hjky_cols_spec _ _ _ EZ) as [MZ PZ]. rewrite R1 in MZ.
+  assert (NDZ : NoDup (map fst zc)) by now rewrite MZ.
+  set (Z := vsum K (sh_dim zs) (map snd zc)).
+  assert (QZ : forall j, In j Q -> In j (holders zs)).
+  { intros j Hj. now apply (reconstructs_holders _ _ _ j RLZ Hj). }
+  destruct (all_ok_complete (hjky_party K zs zc) Q) as [zres EZR].
+  { intros j Hj. apply hjky_party_complete; [now apply QZ|now rewrite MZ|assumption]. }
+  rewrite EZR.
+  assert (HZ : forall j, In j Q -> lookup j zres = Some (share_of K zs Z j, Z)).
+  { intros j Hj. destruct (lookup_all_ok _ _ _ _ EZR Hj) as [[zsh zvv] [Lz Pz]]. rewrite Lz.
+    destruct (hjky_party_honest zs zc j zsh zvv NDZ PZ Pz) as [A B]. now rewrite B, A. }
+  assert (Z0 : hd0 K Z = 0) by (apply hd0_zero_sum; [now apply wf_dim_pos|assumption]).
+  assert (LZ : length Z = sh_dim zs).
+  { apply vsum_length. intros v Hv. apply in_map_iff in Hv. destruct Hv as [e [E He]]. subst. now apply PZ. }
+  (* Round2 of every member of the quorum *)
+  match goal with |- exists w', match all_some ?f ?l with _ => _ end = _ => destruct (all_some_complete f l) as [cols ECOLS] end.
+  { intros j Hj. unfold round2. rewrite EL, ELZ. rewrite (HZ j Hj). cbn [fst].
+    assert (Hjh : In j (holders (w_sh w))).
+    { rewrite forallb_forall in QH. apply mem_In. now apply QH. }
+    rewrite (Gs j Hjh). rewrite !share_of_length.
+    destruct (reconstructs_holders _ _ _ j RL Hj) as [_ E1]. destruct (reconstructs_holders _ _ _ j RLZ Hj) as [_ E2].
+    rewrite <- E1, <- E2, !Nat.eqb_refl. cbn [andb].
+    unfold deal_col. unfold rnd_of.
+    destruct (lookup_map_fst (sa_rnd2 a) j) as [rnd Lr]; [now rewrite R2|]. rewrite Lr.
+    pose proof (L2 (j, rnd) (lookup_In _ _ _ Lr)) as Hl2. simpl in Hl2. rewrite Hl2, Nat.eqb_refl.
+    pose proof (wf_dim_pos _ Wns) as Hd. apply Nat.ltb_lt in Hd. rewrite Hd. cbn [andb]. eauto. }
+  rewrite ECOLS.
+  destruct (all_some_spec _ _ _ ECOLS) as [MC PC].
+  set (zshf := fun j : N => match lookup j zres with Some z => fst z | None => [] end).
+  assert (RC : forall e, In e cols -> length (snd (snd e)) = sh_dim ns /\
+            hd0 K (snd (snd e)) = additive K lam (fst e) (share_in w (fst e)) + additive K lamz (fst e) (zshf (fst e))).
+  { intros [j [aj cj]] He. specialize (PC _ _ He). cbn [fst snd].
+    destruct (round2_spec _ _ _ _ _ _ _ _ _ _ _ _ EL ELZ PC) as [A [B C]]. split; [assumption|]. now rewrite C, A. }
+  set (C' := vsum K (sh_dim ns) (map (fun e : N * (F * VEC) => snd (snd e)) cols)).
+  assert (LC' : length C' = sh_dim ns).
+  { apply vsum_length. intros v Hv. apply in_map_iff in Hv. destruct Hv as [e [E He]]. subst. now apply RC. }
+  assert (S0 : hd0 K C' = s).
+  { apply (sum_cols_secret w s zs ns Q lam lamz cols zshf Z); auto.
+    intros j Hj. unfold zshf. now rewrite (HZ j Hj). }
+  (* Round3 of every next holder *)
+  match goal with |- exists w', match all_ok ?f ?l with _ => _ end = _ => destruct (all_ok_complete f l) as [outs EOUT] end.
+  2:{ rewrite EOUT. destruct outs as [|[i0 [sh0 vv0]] outs'].
+      - destruct (all_ok_spec _ _ _ EOUT) as [M _]. cbn in M. rewrite <- M in LH. cbn in LH. lia.
+      - eauto. }
+  intros i Hi. cbv zeta.
+  set (inbox := r3_inbox K w ns zres cols i).
+  assert (IB : forall m, In m inbox -> exists jc, In jc cols /\ fst jc <> i /\ In (fst jc) Q /\
+             m_from m = fst jc /\ b_prev (m_b m) = w_sh w /\ b_prevvv (m_b m) = w_vv w /\ b_zerovv (m_b m) = Z /\
+             b_nextvv (m_b m) = snd (snd jc) /\ m_piece m = share_of K ns (snd (snd jc)) i).
+  { intros m Hm. unfold inbox, r3_inbox in Hm. apply in_map_iff in Hm. destruct Hm as [jc [E Hjc]]. subst m.
+    apply filter_In in Hjc. destruct Hjc as [Hjc Hne]. exists jc. cbn [m_from m_b b_prev b_prevvv b_zerovv b_nextvv m_piece].
+    assert (HQ : In (fst jc) Q) by (rewrite <- MC; now apply in_map).
+    repeat split; auto.
+    - intro E. rewrite E, N.eqb_refl in Hne. discriminate.
+    - now rewrite (HZ _ HQ). }
+  set (own := match lookup i cols with
+              | Some ac => if mem i Q then Some (share_of K ns (snd ac) i, snd ac) else None
+              | None => None end).
+  assert (EA : exists sh vv, r3_accumulate K own inbox = Ok (Some (sh, vv))).
+  { unfold own. destruct (lookup i cols) as [ac|] eqn:Lc.
+    - assert (Hq : mem i Q = true).
+      { apply mem_In. rewrite <- MC. apply in_map_iff. exists (i, ac). split; [reflexivity|now apply lookup_In]. }
+      rewrite Hq. apply (r3_accumulate_complete (sh_dim ns)).
+      + apply (RC (i, ac)). now apply lookup_In.
+      + intros m Hm. destruct (IB m Hm) as [jc [Hjc [_ [_ [_ [_ [_ [_ [E _]]]]]]]]]. rewrite E. now apply RC.
+    - assert (Hn : ~ In i (map fst cols)).
+      { intro Hin. apply lookup_map_fst in Hin. destruct Hin as [x Hx]. congruence. }
+      assert (Hq : mem i Q = false) by (apply mem_false; now rewrite <- MC).
+      unfold inbox, r3_inbox. rewrite (filter_notin cols i Hn).
+      destruct cols as [|e0 rest]; [cbn in MC; rewrite <- MC in LQ; cbn in LQ; lia|].
+      cbn [map r3_accumulate]. apply (r3_accumulate_complete (sh_dim ns)).
+      + cbn [m_b b_nextvv]. apply RC. now left.
+      + intros m Hm. apply in_map_iff in Hm. destruct Hm as [jc [E Hjc]]. subst m. cbn [m_b b_nextvv]. apply RC. now right. }
+  destruct EA as [sh [vv EA]].
+  destruct (r3_honest_values w ns zres cols Q i own sh vv MC NDQ LQ (fun e He => proj1 (RC e He)) eq_refl EA) as [EV ES].
+  fold C' in EV. subst vv. subst sh.
+  unfold round3. fold own. fold inbox. rewrite EA.
+  rewrite r3_pieces_complete.
+  2:{ intros m Hm. destruct (IB m Hm) as [jc [Hjc [_ [_ [_ [_ [_ [_ [E1 E2]]]]]]]]]. rewrite E1, E2.
+      apply verify_share_of; [assumption|now apply RC]. }
+  assert (CONS : r3_consistency K (w_sh w, w_vv w, Z) zs lam lamz inbox = Ok tt).
+  { apply r3_consistency_complete. intros m Hm.
+    destruct (IB m Hm) as [jc [Hjc [_ [HQ [E0 [E1 [E2 [E3 [E4 _]]]]]]]]]. repeat split; auto.
+    rewrite E4, E0. destruct (RC jc Hjc) as [_ R]. rewrite R.
+    assert (Hjh : In (fst jc) (holders (w_sh w))).
+    { rewrite forallb_forall in QH. apply mem_In. now apply QH. }
+    rewrite (Gs _ Hjh). unfold zshf. now rewrite (HZ _ HQ). }
+  assert (OLD : r3_oldpk K (hd0 K C') inbox = true).
+  { apply r3_oldpk_complete. intros m Hm. destruct (IB m Hm) as [jc [_ [_ [_ [_ [_ [E _]]]]]]]. rewrite E, S0. assumption. }
+  assert (VER : verify K ns i (share_of K ns C' i) C' = true) by (apply verify_share_of; assumption).
+  assert (LEN : (Nat.eqb (length (w_vv w)) (sh_dim (w_sh w)) && Nat.eqb (length Z) (sh_dim zs)) = true).
+  { now rewrite GL, LZ, !Nat.eqb_refl. }
+  destruct (mem i Q) eqn:Hq.
+  - (* previous holder: own trusted data *)
+    apply mem_In in Hq. rewrite (HZ i Hq). cbn [snd].
+    rewrite LEN. cbn [negb]. rewrite EL, ELZ, CONS, OLD, VER. cbn [negb]. eauto.
+  - assert (OT : match lookup i zres with Some z => if false then Some (w_sh w, w_vv w, snd z) else None | None => None end = @None (@trusted F)).
+    { destruct (lookup i zres); reflexivity. }
+    rewrite OT.
+    destruct (N.eqb (sa_anchor a) 0) eqn:EA0.
+    + rewrite OLD, VER. cbn [negb]. eauto.
+    + cbn [orb] in AN. apply mem_In in AN.
+      destruct (find_bcast_complete (sa_anchor a) inbox) as [m [Hm [Em Fm]]].
+      { destruct (lookup_map_fst cols (sa_anchor a)) as [ac Lac]; [now rewrite MC|].
+        exists (mk_r2msg (sa_anchor a) (mk_r2bcast (w_sh w) (w_vv w)
+                  (match lookup (sa_anchor a) zres with Some z => snd z | None => [] end) (snd ac)) (share_of K ns (snd ac) i)).
+        split; [|reflexivity]. unfold inbox, r3_inbox.
+        apply in_map_iff. exists (sa_anchor a, ac). split; [reflexivity|]. apply filter_In. split; [now apply lookup_In|].
+        cbn [fst]. apply negb_true_iff. apply N.eqb_neq. intro E. apply mem_false in Hq. apply Hq. now rewrite <- E. }
+      rewrite Fm. destruct (IB m Hm) as [jc [_ [_ [_ [_ [E1 [E2 [E3 _]]]]]]]]. rewrite E1, E2, E3.
+      rewrite LEN. cbn [negb]. rewrite EL, ELZ, CONS, OLD, VER. cbn [negb]. eauto.
 Qed.
 
 End Step.
